@@ -229,7 +229,7 @@ def failing_coq_file(out):
 # ------------------------------------------------------------------------------------------------
 # extraction + OCaml runners
 
-def build_runner(rdir, extract_v, module):
+def build_runner(rdir, extract_v, module, copy_to=None):
     """coqc the extraction file inside ocaml/<rdir>, regenerate conv.ml, dune build"""
     d = os.path.join(OCAML, rdir)
     with Lock("ocaml"):
@@ -250,7 +250,14 @@ def build_runner(rdir, extract_v, module):
         rc, out = sh(["dune", "build", "./%s/main.exe" % rdir], cwd=OCAML, timeout=900)
         if rc != 0:
             return None, "dune build failed:\n" + out[-3000:]
-    return os.path.join(OCAML, "_build", "default", rdir, "main.exe"), ""
+        exe = os.path.join(OCAML, "_build", "default", rdir, "main.exe")
+        if copy_to:
+            # several checks share a runner directory: run a private copy, taken under the build lock
+            dst = os.path.join(copy_to, "runner-%s.exe" % rdir)
+            shutil.copyfile(exe, dst)
+            os.chmod(dst, 0o755)
+            exe = dst
+    return exe, ""
 
 
 def run_runner(exe, cases_path, out_path, shards=None, timeout=3000):
@@ -369,11 +376,17 @@ def trunc(s, n=400):
 
 
 def check(pid, tier, seed):
-    t0 = time.time()
     mods = load_checks()
     if pid not in mods:
         log("unknown property", pid)
         return 2
+    # two runs of one check would share work/<id>/: serialise them (different checks run concurrently)
+    with Lock("check-" + ("alt-" if ALT else "") + pid.lower()):
+        return check_locked(pid, tier, seed, mods)
+
+
+def check_locked(pid, tier, seed, mods):
+    t0 = time.time()
     m = mods[pid]
     wd = os.path.join(WORK, ("alt-" if ALT else "") + pid.lower())
     os.makedirs(wd, exist_ok=True)
@@ -415,6 +428,8 @@ def check(pid, tier, seed):
             notes.append("theorems without Print Assumptions: " + ",".join(unprinted))
     else:
         where = failing_coq_file(out)
+        if "[timeout after" in out and not where:
+            where = "build timed out (not a broken proof: the machine was too slow or the limit too low)"
         for t in theorems:
             thm_status.append({"name": t, "status": "not-checked", "assumptions": None})
         problems.append(("unproved", "Coq build of %s failed at %s" % (m.PROPS, where),
@@ -475,7 +490,7 @@ def check(pid, tier, seed):
         runner = None
         if leg.get("runner"):
             rdir, extract_v, module = leg["runner"]
-            runner, err = build_runner(rdir, extract_v, module)
+            runner, err = build_runner(rdir, extract_v, module, copy_to=wd)
             if runner is None:
                 # the model does not compile/extract: proofs are broken anyway; predicate still runs
                 if proofs_ok:
@@ -496,6 +511,9 @@ def check(pid, tier, seed):
         obs = os.path.join(wd, lname + "_impl.txt")
         tgen = time.time()
         rc, out = sh([exe, "gen", str(seed), tier, cases, obs], env=GOENV, timeout=leg.get("timeout", 3000))
+        for l in out.splitlines():
+            if l.startswith("hx:") and len(notes) < 40:
+                notes.append("%s: %s" % (lname, l[:200]))     # e.g. cases re-run alone after a missed deadline
         if rc != 0:
             problems.append(("unproved", "driver %s failed" % lname, {"kind": "driver", "what": lname, "output": out[-3000:]}))
         else:
